@@ -218,6 +218,11 @@ def pick_len(rng, lo, hi):
 
 def rand_date(rng, fmt):
     has = set(fmt.replace('%', ''))
+    if {'y', 'm', 'd', 'H'} <= has and rng.random() < 0.06:
+        # wall-clock values that do not exist / exist twice in a daylight-saving zone (US rules): values are naive, so
+        # they must come back as written
+        y, mo, d, h = rng.choice([(2023, 3, 12, 2), (2024, 3, 10, 2), (2023, 11, 5, 1), (2021, 3, 14, 2)])
+        return datetime.datetime(y, mo, d, h, rng.randint(0, 59) if 'M' in has else 0, rng.randint(0, 59) if 'S' in has else 0)
     if 'y' in has:
         y = rng.choice([1969, 1970, 1999, 2000, 2024, 2067, 2068, rng.randint(1969, 2068)])
     elif 'Y' in has:
